@@ -213,6 +213,55 @@ func (g *Gen) Run() (err error) {
 	return nil
 }
 
+// allocPrivate: the variable behind this Alloc is marked escaping by go/ssa only because closures of the function
+// capture it, and no such closure (transitively) assigns it or lets its address go anywhere; all other uses are
+// loads, stores INTO it and field/element address computations used the same way.
+func allocPrivate(a *ssa.Alloc) bool {
+	return addrUsesPrivate(a, false, 0)
+}
+
+func addrUsesPrivate(v ssa.Value, readOnly bool, depth int) bool {
+	if depth > 6 || v.Referrers() == nil {
+		return false
+	}
+	for _, r := range *v.Referrers() {
+		switch x := r.(type) {
+		case *ssa.DebugRef:
+		case *ssa.UnOp:
+			if x.Op != token.MUL {
+				return false
+			}
+		case *ssa.Store:
+			if x.Val == v || readOnly {
+				return false
+			}
+		case *ssa.FieldAddr:
+			if !addrUsesPrivate(x, readOnly, depth+1) {
+				return false
+			}
+		case *ssa.IndexAddr:
+			if x.X != v || !addrUsesPrivate(x, readOnly, depth+1) {
+				return false
+			}
+		case *ssa.MakeClosure:
+			fn, ok := x.Fn.(*ssa.Function)
+			if !ok {
+				return false
+			}
+			for i, b := range x.Bindings {
+				if b == v {
+					if i >= len(fn.FreeVars) || !addrUsesPrivate(fn.FreeVars[i], true, depth+1) {
+						return false
+					}
+				}
+			}
+		default:
+			return false
+		}
+	}
+	return true
+}
+
 // prebindGhosts gives every `ghost x after F#N = ...` of the contract an unconstrained value of the right type
 // before execution starts. A clause evaluated on a path (e.g. a loop's back edge after `continue`) that is executed
 // before the block that contains F#N would otherwise find the name unbound; on such paths the ghost is arbitrary,
@@ -260,6 +309,9 @@ func (g *Gen) prebindGhosts() {
 			if refs := g.namedLocal[id.Name]; len(refs) > 0 {
 				t = refs[0].X.Type()
 			}
+		} else if _, ok := gh.Expr.(*EBool); ok {
+			// `ghost done after F#N = true`: "F#N has been executed on this path" (arbitrary where it has not)
+			t = types.Typ[types.Bool]
 		}
 		if t == nil {
 			continue
@@ -1342,9 +1394,10 @@ func (g *Gen) execInstr(in ssa.Instruction) {
 			}
 		}
 		g.vals[x] = sv(x.Type(), r)
-		if !x.Heap {
-			// a local variable whose address never leaves the function (go/ssa's conservative escape flag): code
-			// without contract cannot change it - see havocEverything
+		if !x.Heap || allocPrivate(x) {
+			// a local variable whose address never leaves the function (go/ssa's conservative escape flag), or one
+			// that is only captured by closures of this function that never assign it: code without contract
+			// cannot change it - see havocEverything
 			g.localAllocs = append(g.localAllocs, localAlloc{r, pt})
 		}
 	case *ssa.BinOp:
